@@ -22,7 +22,7 @@ theorem later_isEmpty (l : List Src) : (l.map List.flatten).isEmpty = l.isEmpty 
 /-- **Refinement.**  Whenever the flat specification is determinate on the stream, the
     chunked run — for every chunking of every epoch — computes exactly it, and the bytes
     it leaves (`buf ++ unread chunks`) are exactly the unconsumed suffix. -/
-theorem run_refines {α : Type} (p : Prog α) (st : St) (h : runF p st.abs ≠ .ambiguous) :
+theorem run_refines {α : Type} (p : Prog α) (st : St) (h : (runF p st.abs).isAmb = false) :
     (run true p st).abs = runF p st.abs := by
   induction p generalizing st with
   | ret a => rfl
@@ -103,7 +103,7 @@ theorem run_refines {α : Type} (p : Prog α) (st : St) (h : runF p st.abs ≠ .
           simp only [St.abs, hrest]
         rw [← habs] at h ⊢
         exact ih _ h
-      · simp [hle] at h
+      · simp [hle, ResF.isAmb] at h
     | fail =>
       obtain ⟨hlen, hall⟩ := hfail rfl
       simp only [St.abs] at h ⊢
@@ -111,7 +111,7 @@ theorem run_refines {α : Type} (p : Prog α) (st : St) (h : runF p st.abs ≠ .
       | some i =>
         have := hall i hf
         have hle : ¬ i + v.length ≤ n := by omega
-        simp [hf, hle] at h
+        simp [hf, hle, ResF.isAmb] at h
       | none => simp only [hlen, if_true, Res.abs]
     | eof =>
       obtain ⟨hlen, hnone, _⟩ := heof rfl
@@ -127,7 +127,7 @@ theorem run_refines {α : Type} (p : Prog α) (st : St) (h : runF p st.abs ≠ .
         simp [he.1]
       simp only [hb, if_true]
       exact ihy _ h
-    · simp [he] at h
+    · simp [he, ResF.isAmb] at h
   | xorAll ks k ih =>
     unfold run
     unfold runF at h ⊢
